@@ -88,7 +88,8 @@ class FnSpec:
         base = (ty + '::' if ty else '') + name
         if self.mode == 'block':
             m = re.search(r'fn\s+(\w+)', self.lift[1])
-            return m.group(1)
+            m2 = re.match(r'^impl\s+(\w+)\s*:', self.lift[1])
+            return (m2.group(1) + '::' if m2 else '') + m.group(1)
         if tr:
             return '<%s as %s>::%s' % (ty, tr, name)
         return base
@@ -899,6 +900,7 @@ class FnEmitter:
             # R5: lift the n-th loop statement
             sub = toks[item.body_open:item.body_close + 1]
             n_, sigtxt, kind_ = spec.lift
+            sigtxt = re.sub(r'^impl\s+\w+\s*:\s*', '', sigtxt)
             if kind_ == 'loop':
                 loops = find_loops(sub)
                 if n_ > len(loops):
@@ -1164,6 +1166,9 @@ class Generator:
                         if spec.noreturn:
                             plines = self.probe_noreturn(plines)
                         ty = spec.target[0] if spec.mode == 'fn' else None
+                        if spec.mode == 'block':
+                            m_ty = re.match(r'^impl\s+(\w+)\s*:', spec.lift[1])
+                            ty = m_ty.group(1) if m_ty else None
 
                         def wrap(lines_, ty=ty, q=spec.qname):
                             o_ = ['/* vacuity probe twin of %s */' % q]
@@ -1227,8 +1232,9 @@ class Generator:
         for spec in specs:
             for c in spec.clauses:
                 tags_of[c.cid] = (c.tags or spec.default, spec.qname, c.kind, c.text)
+        explicit_tagged = set(c.cid for spec in specs for c in spec.clauses if c.tags)
         return {'text': text, 'records': records, 'clause_at': clause_at, 'fn_ranges': fn_ranges,
-                'errors': errors, 'tags_of': tags_of, 'specs': specs}
+                'errors': errors, 'tags_of': tags_of, 'specs': specs, 'explicit_tagged': explicit_tagged}
 
     @staticmethod
     def quarantined(flines):
